@@ -1,5 +1,6 @@
 import Beetswap.Model.Incoming
 import Beetswap.Model.Builder
+import Beetswap.Model.Client
 import Beetswap.Model.Text
 /-! Driver commands of the CID layer (shared text forms with harness/src/cidexec.rs). -/
 namespace Driver.CidIO
@@ -156,6 +157,21 @@ def step (toks : List String) : Option String :=
         | some e => e.2
         | none => .unknown
       pure (showProc (processMessage S H parse msg))
+  | ["getsize", sn, ss, v, codec, code, d] => do
+    let SN ← sn.toNat?; let SS ← ss.toNat?; let v ← v.toNat?; let codec ← codec.toNat?
+    let code ← code.toNat?; let d ← Text.unhex d
+    if d.length > SS then pure "invalid-cid"
+    else if v == 0 && !(code == 0x12 && d.length == 32) then pure "invalid-cid"
+    else
+      let c : Cid := if v == 0 then ⟨0, 0x70, ⟨code, d⟩⟩ else ⟨1, codec, ⟨code, d⟩⟩
+      -- `Behaviour::get` = `ClientBehaviour::get` with `fits` = whether `convert_cid` succeeds
+      let fits := (convertCid SN c).isSome
+      let (s, q) := Client.get {} 0 fits
+      let (_, _, outs) := Client.drain s 0 0 (fun _ => none)
+      pure (match outs with
+        | [.callGet _ _] => "lookup"
+        | [.err q' 0] => if q' == q then "err" else "odd"
+        | _ => "odd")
   | ["proto", h] =>
     if h == "N" then
       some (match Builder.build none with
